@@ -197,6 +197,36 @@ def check(run, ctx):
         run.finding(V6, "PathResolver.get_relative_path", "symlink-asymmetry", "one spelling of the path is canonicalised with resolve() (follows symlinks) and the other is not: a symlinked file is judged by the link's location when named absolutely and by the target's location when named relatively", gr.loc)
     else:
         run.ok(V6, "get_relative_path branches", f"{len(branches)} relativising branches canonicalise alike")
+
+    V7 = run.rule("V7", "an allow list is applied whenever its key is present: what skips match_allow_patterns is a key-presence test (`'allow' not in rule`, KeyError, `is None`), never the truthiness of the list", floor=2,
+                  decides="`allow: []` allows nothing (every file there is reported), exactly like the global allow list")
+    n_allow = 0
+    for f in sorted(repo.funcs_in(f"{PKG}.rule_checker."), key=lambda x: x.qual):
+        calls = [n for n in ast.walk(f.node) if is_call_named(n, "match_allow_patterns")]
+        if not calls:
+            continue
+        n_allow += 1
+        # names bound from <mapping>.get("allow") / <mapping>["allow"]
+        allow_names = {t.id for n in ast.walk(f.node) if isinstance(n, ast.Assign) for t in n.targets if isinstance(t, ast.Name)
+                       and ((isinstance(n.value, ast.Call) and call_name(n.value) == "get" and n.value.args and isinstance(n.value.args[0], ast.Constant) and n.value.args[0].value == "allow")
+                            or (isinstance(n.value, ast.Subscript) and isinstance(n.value.slice, ast.Constant) and n.value.slice.value == "allow"))}
+        bad = None
+        for n in ast.walk(f.node):
+            if isinstance(n, (ast.If, ast.IfExp, ast.While)) or isinstance(n, ast.BoolOp):
+                tests = [n.test] if not isinstance(n, ast.BoolOp) else n.values
+                for t in tests:
+                    for x in ([t] + ([t.operand] if isinstance(t, ast.UnaryOp) and isinstance(t.op, ast.Not) else [])):
+                        if isinstance(x, ast.Name) and x.id in allow_names:
+                            bad = (n, x)
+                        if isinstance(x, ast.Call) and call_name(x) == "get" and x.args and isinstance(x.args[0], ast.Constant) and x.args[0].value == "allow":
+                            bad = (n, x)
+                        if isinstance(x, ast.Subscript) and isinstance(x.slice, ast.Constant) and x.slice.value == "allow":
+                            bad = (n, x)
+        if bad:
+            run.finding(V7, f.qual.replace(f"{PKG}.", ""), f"allow-truthiness:{norm(bad[1])}", f"{f.name} decides by the truthiness of `{norm(bad[1])}` whether the allow list applies: an empty `allow: []` (nothing belongs here) is treated like a missing key and the files are no longer reported", f"{f.module.rel}:{bad[0].lineno}")
+        else:
+            run.ok(V7, f.qual.replace(f"{PKG}.", ""), "allow list applied on key presence")
+    run.require(n_allow >= 2, "fewer than two match_allow_patterns callers found in rule_checker")
     return __doc__
 
 
